@@ -110,7 +110,7 @@ pub fn gen_fmt_value(rng: &mut Rng) -> (i128, i32) {
             // noon / midnight ± 1 s, hours 0/11/12/13/23
             let day = gen_c09_instant(rng).div_euclid(D);
             let secs: i128 = *rng.pick(&[0i128, 1, 86_399, 43_199, 43_200, 43_201, 11 * 3600, 12 * 3600 + 59 * 60, 13 * 3600, 23 * 3600, 3_599, 3_600]);
-            day * D + secs * NS + *rng.pick(&[0i128, 0, 1, 999_999_999, 500_000_000])
+            day * D + secs * NS + if rng.chance(1, 3) { crate::model::magic::subsec_near_power_of_ten(rng) as i128 } else { *rng.pick(&[0i128, 0, 1, 999_999_999, 500_000_000]) }
         }
         2 => {
             // around year ends (week 52/53/1)
@@ -136,12 +136,22 @@ pub fn gen_fmt_value(rng: &mut Rng) -> (i128, i32) {
     (i, off)
 }
 
-const LITERAL_CHARS: [char; 52] = [
+const LITERAL_CHARS: [char; 62] = [
     ' ', '/', '-', ':', '.', ',', '_', '(', ')', '[', '#', '+', '*', 'T', 'Z', 'z', 'A', 'B', 'c', 'u', 'j', 'l', 'o', 'p', 'r', 't', 'v', 'E', 'F', 'Y', 'W', 'é', 'ü', '日', '🕰',
     '0', '1', '7', '9', '"',
     // white space and control characters, Unicode numerics that are not ASCII digits, combining and zero-width marks
     '\n', '\r', '\t', '\u{a0}', '½', '②', 'Ⅳ', '٣', '\u{301}', '\u{200b}', '\u{7f}', '\\',
+    // code points an implementation might reserve as an internal placeholder: noncharacters, private use, BOM,
+    // replacement character, the last code point, a C0 control
+    '\u{fdd0}', '\u{fdef}', '\u{fffe}', '\u{ffff}', '\u{e000}', '\u{f8ff}', '\u{feff}', '\u{fffd}', '\u{10ffff}', '\u{1f}',
 ];
+
+/// A character whose code point equals `c` in its low 8 (or 16) bits: what `ch as u8 == b` / `ch as u16` comparisons
+/// mistake for the ASCII character `c` (ō U+014D for M, ħ U+0127 for the apostrophe, …).
+fn truncation_lookalike(rng: &mut Rng, c: char) -> char {
+    let k = *rng.pick(&[0x100u32, 0x200, 0x300, 0x400, 0x1000, 0x1_0000, 0x2_0000]);
+    char::from_u32(k + c as u32).unwrap_or('ō')
+}
 
 fn kinds() -> [Kind; 3] {
     [Kind::DateTime, Kind::Date, Kind::Time]
@@ -189,7 +199,12 @@ pub fn gen_pattern(rng: &mut Rng, kind: Kind) -> String {
                 }
             }
             6 | 7 => {
-                let c = *rng.pick(&LITERAL_CHARS);
+                let prev = p.chars().last();
+                let c = match prev {
+                    // right after a symbol run or an apostrophe: sometimes its truncation look-alike
+                    Some(pc) if pc.is_ascii() && rng.chance(1, 8) => truncation_lookalike(rng, pc),
+                    _ => *rng.pick(&LITERAL_CHARS),
+                };
                 // mostly short; sometimes a long run of one literal character (separator lines): around 255/256 and
                 // 65 535/65 536, where a run length kept in a u8 / u16 saturates or wraps
                 let w = if rng.chance(1, 40) { *rng.pick(&[200u64, 254, 255, 256, 257, 300, 511, 512, 1_000, 65_535, 65_536, 65_537, 70_000]) } else { 1 + rng.below(3) };
